@@ -40,6 +40,7 @@ type CProg struct {
 	Free    bool             `json:"free"`    // free-running stress: no gates, random yields
 	Seed    uint64           `json:"seed"`
 	Block   int              `json:"blockms"` // free mode: hold the writer inside the transport for this long
+	Pool    bool             `json:"pool"`    // the connection uses a (recording) WriteBufferPool
 	Scale   int              `json:"scale"`   // free mode: WriteMessage data payloads are n*scale bytes (direct-write path, many frames)
 }
 
@@ -307,12 +308,28 @@ func (r *concRun) exec() {
 	sc.QuietReads = true
 	r.sc = sc
 	wb := p.WBuf
-	c, err := NewConn(sc, ConnOpts{Role: p.Role, WBuf: wb})
+	var pool *poolRec
+	opts := ConnOpts{Role: p.Role, WBuf: wb}
+	if p.Pool {
+		pool = &poolRec{ids: map[uintptr]int{}, emit: func(Ev) {}}
+		opts.Pool = pool
+	}
+	c, err := NewConn(sc, opts)
 	if err != nil {
 		r.add(Ev{"e": "SETUPFAIL", "v": err.Error()})
 		return
 	}
 	r.c = c
+	if pool != nil {
+		// pool operations are transport-level observations attributed to the calling goroutine
+		pool.emit = func(e Ev) {
+			th := r.thread()
+			if th == "" {
+				th = "?"
+			}
+			r.add(Ev{"e": "Op", "t": th, "it": e})
+		}
+	}
 	if p.FaultAt > 0 {
 		sc.Faults[p.FaultAt-1] = &xport.Fault{Kind: "err"}
 	}
@@ -369,6 +386,13 @@ func (r *concRun) exec() {
 		go func(th *cthread, ops []COp) {
 			defer wg.Done()
 			defer close(th.finish)
+			defer func() {
+				// a panic inside the library on an application goroutine is an observation, not a driver crash
+				if v := recover(); v != nil {
+					r.add(Ev{"e": "PANIC", "t": th.name, "v": truncate(fmt.Sprint(v), 200)})
+					r.setFree()
+				}
+			}()
 			r.mu.Lock()
 			r.gids[xport.GID()] = th.name
 			r.mu.Unlock()
